@@ -68,14 +68,14 @@ EXTRA = {
  "C10": "; the locked object is not read back after its lock was released; every mutator in its matching critical section; stored records immutable; computed metadata fields are baked from final values; Copy goes through the store's own Add",
  "C11": "; recorded names carry the requested prefix; walk callback examines its error first; sibling parameter use; directory entries never reach the per-object listing logic; the prefix is never on the inclusive side of the cursor comparison; a page is bounded by maxResults on every recording path",
  "C12": "; the branch selector is an emptiness test on every path; cells are never edited in place; copyRow depth; no row deletion from inside an iteration; isEmpty answers on the evidence of a cell; a given predicate is evaluated on every successful path",
- "C13": "; timestamps from the injectable clock; column lookups do not rely on qualifier order; appendOrReplaceCell uniqueness conditions; read and write-back of every row RPC under one hold; the written timestamp depends on the newest existing cell; the value bytes of an existing cell are never written",
+ "C13": "; timestamps from the injectable clock; column lookups do not rely on qualifier order; appendOrReplaceCell uniqueness conditions and every read-modify-write insert goes through it; read and write-back of every row RPC under one hold; the written timestamp depends on the newest existing cell; the value bytes of an existing cell are never written",
  "C14": "; registry check-then-act under one hold; no nil scan bound; rows closed only at shutdown; the ListTables parent prefix includes the /tables/ separator; a missing table is answered NotFound, an existing one AlreadyExists",
  "C15": "; no copy loop over a just-made map; no nested object locks; decode target is not a shallow copy of a store object; stored records immutable; a missing source or object is answered 404",
  "C16": "; the write-back flag of a GC pass is monotone over the columns; GC cut-offs from the injectable clock; every row store stamps the write-activity clock; engine methods have only their own effect and take no locks; a GC pass takes its rules from the live family definitions, not from a second copy",
  "C17": "; dispatch shape; engine contracts (reopen passes nuke, Create wipes, single-effect methods, no engine locks, Close only at shutdown)",
  "C18": "; no value-receiver field assignment in the chunk builder; read and write-back of the row RPCs under one hold; every table.rows access under the lock; no stale GC write-back; store only on success; engines take no locks; rows closed only at shutdown; sent buffers not recycled; the scan callback passes a row over only because of the row itself; a chunk buffer that has been sent is emptied before the scan goes on",
  "C19": "; Run cannot return on the acquired edge without the deferred unlock; decrement and eviction in one hold",
- "C20": "; Content-Length agrees with every body write; every table is built around a non-nil family map; guarded-map check-then-act, nested object locks, use after ownership transfer, carried-over scratch values, engine locks / Close, in-place record updates; a batch answers every parsed part (dispatch, part creation and response write on every path of an iteration, a recorder per part, lists in lockstep, closing boundary); no mutex is acquired again while it is held, through calls, interface dispatch or callbacks; elements of JSON-decoded pointer lists are nil-checked; no response is streamed to the client while a table or registry mutex is held; a missing table is answered NotFound and a store read that reports not-found 404; integer struct fields filled from parsed request numbers are request-integer sources",
+ "C20": "; Content-Length agrees with every body write; every table is built around a non-nil family map; guarded-map check-then-act, nested object locks, use after ownership transfer, carried-over scratch values, engine locks / Close, in-place record updates; a batch answers every parsed part (dispatch, part creation and response write on every path of an iteration, a recorder per part, lists in lockstep, closing boundary); no mutex is acquired again while it is held, through calls, interface dispatch or callbacks; elements of JSON-decoded pointer lists are nil-checked; no response is streamed to the client while a table or registry mutex is held; a missing table is answered NotFound and a store read that reports not-found 404; integer struct fields filled from parsed request numbers are request-integer sources; API-level errors are answered in the JSON envelope, never with net/http.Error; names recorded by the listing walk carry the requested prefix (the delimiter slice bound relies on it)",
 }
 checks=[]
 for p in props:
